@@ -269,6 +269,25 @@ fn main() {
                     }
                 }
             }
+            // thorough: the model side runs the case list in 16 contiguous shards, and the cone oracle on the 7- and 8-crossing
+            // diagrams dominates its running time; deal those cases round-robin over the 16 blocks (order of the list only)
+            if thorough {
+                let costly = |c: &String| -> bool {
+                    let (head, link) = c.split_once(';').unwrap();
+                    (c.starts_with("khi") || c.starts_with("sym")) && head.trim_end().ends_with(" 1") && link.matches(',').count() >= 6
+                };
+                let (heavy, light): (Vec<String>, Vec<String>) = cases.iter().cloned().partition(costly);
+                let k = 16;
+                let size = (cases.len() + k - 1) / k;
+                let mut buckets: Vec<Vec<String>> = vec![vec![]; k];
+                for (i, c) in heavy.into_iter().enumerate() { buckets[i % k].push(c); }
+                let mut j = 0;
+                for c in light.into_iter() {
+                    while j + 1 < k && buckets[j].len() >= size { j += 1; }
+                    buckets[j].push(c);
+                }
+                cases = buckets.into_iter().flatten().collect();
+            }
             use rayon::prelude::*;
             let results: Vec<String> = cases.par_iter().map(|c| guarded(|| run_case(c)).unwrap_or("TOP-PANIC".into())).collect();
             for (c, res) in cases.iter().zip(results.iter()) { o.case(c, res); }
